@@ -99,10 +99,40 @@ def scen():
     return bad
 
 
+def scen_encoding_error():
+    """the record of an unserialisable result must itself pickle, whatever the serialiser raised and whatever the result
+    was -- also an error that carries the unpicklable object"""
+    import pickle
+    import threading
+    from billiard.pool import MaybeEncodingError
+    bad = []
+
+    class Carrying(Exception):
+        def __init__(self, obj):
+            Exception.__init__(self, 'cannot encode', obj)
+            self.obj = obj
+    lock = threading.Lock()
+    for what, exc, value in (('PicklingError with a text', pickle.PicklingError('nope'), 'v'),
+                             ('error carrying the unpicklable object', Carrying(lock), lock),
+                             ('error whose argument is a generator', ValueError((x for x in ())), [lock])):
+        rec = MaybeEncodingError(exc, value)
+        if rec.exc != repr(exc) or rec.value != repr(value) or rec.args != (repr(exc), repr(value)):
+            bad.append('MaybeEncodingError(%s): attributes %r / %r, arguments %r (expected the two reprs)' % (
+                what, rec.exc, rec.value, rec.args))
+        try:
+            back = pickle.loads(pickle.dumps(rec))
+            if (back.exc, back.value) != (rec.exc, rec.value):
+                bad.append('MaybeEncodingError(%s) changed in a pickle round trip' % what)
+        except Exception as e:      # noqa
+            bad.append('MaybeEncodingError(%s) cannot be pickled itself: %r -- the encoding-error report cannot be sent, '
+                       'the worker dies and the job is lost' % (what, e))
+    return bad
+
+
 def main():
     data = json.load(open(sys.argv[1]))
     print('replay of %s / %s' % (data['function'], data['obligation']))
-    bad = scen()
+    bad = scen() + scen_encoding_error()
     for b in bad[:8]:
         print('  violation on real code: ' + b)
     print('REPRODUCED on real code' if bad else 'not reproduced')
